@@ -15,11 +15,14 @@ FAMS = [
     ("offline", "XML"),        # pack:2 core:2 pu:2 with PUs 1 and 6 offline: complete cpusets larger than cpusets (c08.make_offline_xml)
     ("disdrop", "XML"),        # a nested-memory topology whose NUMA node 1 and PUs 2-3 were disallowed, exported and reloaded without
                                # INCLUDE_DISALLOWED: the library dropped them, complete sets larger than the sets
+    ("stored", "XML"),         # the nested-memory topology with every store filled before it was exported: two distances structures, a memory
+                               # attribute with four initiators per target and one without, two CPU kinds with infos, Misc objects, a Group
 ]
 FAM_EXTRA = {"mscache": ["filter 0 15 0"]}          # load lines every behaviour of the family gets
 ALL_OPS = ["restrict", "insert_misc", "group", "group_ns", "group_obj", "group_free", "allow", "add_info", "set_subtype", "refresh",
-           "dist_add", "dist_remove", "memattr", "cpukind", "cpukind_info"]
-STORE_OPS = ["restrict", "dist_add", "dist_remove", "memattr", "cpukind", "cpukind_info", "insert_misc", "add_info", "set_subtype", "group"]   # C05: what fills the stores, then a restrict
+           "dist_add", "dist_remove", "dist_remove_one", "memattr", "cpukind", "cpukind_info"]
+DEEP_OPS = ["restrict", "dist_add", "dist_remove", "dist_remove_one", "memattr"]      # focused configuration (Tiny argument sets): the stores five calls deep
+STORE_OPS = ["restrict", "dist_add", "dist_remove", "dist_remove_one", "memattr", "cpukind", "cpukind_info", "insert_misc", "add_info", "set_subtype", "group"]   # C05: what fills the stores, then a restrict
 STRUCT_OPS = ["restrict", "insert_misc", "group", "group_ns", "group_obj"]           # focused configuration: what reshapes the tree, one call deeper
 # load-time configurations: (name, lines)
 LOADCFG = [
@@ -37,7 +40,7 @@ def source_line(ctx, name, desc):
 
 def prepass(ctx, exe):
     # XML-sourced families are generated first
-    c08.prepass(ctx, exe)
+    g8 = c08.prepass(ctx, exe)["nested"]["gps"]           # gp indexes of "[numa] pack:2 [numa] core:2 pu:2" by type
     import shutil
     shutil.copy(c08.make_offline_xml(ctx, "sym"), ctx.path("c02-offline.xml"))
     gen = ["reset 1", "init 0", "synthetic 0 [numa] pack:2 [numa] core:2 pu:2", "flags 0 1", "load 0", "allow 0 4 0-1,4-7 0,2",
@@ -45,7 +48,15 @@ def prepass(ctx, exe):
     bf = ctx.path("prepass-gen.beh")
     open(bf, "w").write("\n".join(gen) + "\n")
     ctx.record(exe, bf, bf + ".ndjson")
-    for n in ("offline", "disdrop"):
+    # "stored": what the store-filling calls of the alphabet would need several steps to build is there from the start
+    gen = ["reset 1", "option namebase 100", "init 0", "synthetic 0 [numa] pack:2 [numa] core:2 pu:2", "filter 0 19 0", "load 0",
+           "dist_add 0 5 0 4 %s " % " ".join(map(str, g8[4][:4])) + " ".join(str(10 if r == c else 20 + r + c) for r in range(4) for c in range(4)),
+           "dist_add 0 6 0 2 %d %d 10 20 20 10" % (g8[3][0], g8[3][2]), "memattr 0 5 %d 100" % g8[14][0], "memattr 0 1 %d 7" % g8[14][0], "memattr 0 5 %d 300" % g8[14][1],
+           "cpukind 0 0-3 1 1", "cpukind 0 4-7 0 1", "insert_misc 0 %d annot" % g8[0][0], "insert_misc 0 %d annot2" % g8[3][1], "group 0 0-1 - 0 0 1",
+           "export_xml 0 %s 0" % ctx.path("c02-stored.xml"), "destroy 0"]
+    open(bf, "w").write("\n".join(gen) + "\n")
+    ctx.record(exe, bf, bf + ".2.ndjson")
+    for n in ("offline", "disdrop", "stored"):
         if not os.path.exists(ctx.path("c02-%s.xml" % n)):
             raise vlib.Infra("family document c02-%s.xml was not generated" % n)
     lines = []
@@ -99,18 +110,18 @@ def mc_module(info, choices, rflags):
     nc = "[n \\in {%s} |-> CASE %s]" % (", ".join(map(str, sorted(nodes))),
                                          " [] ".join("n = %d -> {%s}" % (n, ", ".join(map(str, cs))) for n, cs in sorted(nodes.items())))
     return ("---- MODULE MC_TopoOps_gen ----\nEXTENDS MC_TopoOps\nGPUs == {%s}\nGNodes == {%s}\nGNodeCpus == %s\nGSets == <<%s>>\nGRFlags == {%s}\nGTops == <<%s>>\nGShapePUs == <<%s>>\n"
-            "GOpsAll == {%s}\nGOpsStruct == {%s}\nGOpsStores == {%s}\n====\n"
+            "GOpsAll == {%s}\nGOpsStruct == {%s}\nGOpsStores == {%s}\nGOpsDeep == {%s}\n====\n"
             % (", ".join(map(str, info["pus"])), ", ".join(map(str, sorted(nodes))), nc,
                ", ".join(c08.tla_ranges(c) for c in choices), ", ".join(map(str, rflags)),
                ", ".join("{%s}" % ", ".join(map(str, t)) for t in info["tops"]),
                ", ".join("<<%s>>" % ", ".join("{%s}" % ", ".join(map(str, info["gpcs"][g])) for g in dist_objs(info, sh)) for sh in (1, 2, 3, 4)),
-               ", ".join('"%s"' % o for o in ALL_OPS), ", ".join('"%s"' % o for o in STRUCT_OPS), ", ".join('"%s"' % o for o in STORE_OPS)))
+               ", ".join('"%s"' % o for o in ALL_OPS), ", ".join('"%s"' % o for o in STRUCT_OPS), ", ".join('"%s"' % o for o in STORE_OPS), ", ".join('"%s"' % o for o in DEEP_OPS)))
 
 
-def mc_cfg(maxsteps, two, nstripes, stripe, simlen, bfs, ops="GOpsAll", lean=False):
-    s = ("SPECIFICATION Spec\nCONSTANTS\n  PUs <- GPUs\n  Nodes <- GNodes\n  NodeCpus <- GNodeCpus\n  SetChoices <- GSets\n  RestrictFlags <- GRFlags\n  Tops <- GTops\n  ShapePUs <- GShapePUs\n  Ops <- %s\n  Lean = %s\n"
+def mc_cfg(maxsteps, two, nstripes, stripe, simlen, bfs, ops="GOpsAll", lean=False, tiny=False):
+    s = ("SPECIFICATION Spec\nCONSTANTS\n  PUs <- GPUs\n  Nodes <- GNodes\n  NodeCpus <- GNodeCpus\n  SetChoices <- GSets\n  RestrictFlags <- GRFlags\n  Tops <- GTops\n  ShapePUs <- GShapePUs\n  Ops <- %s\n  Lean = %s\n  Tiny = %s\n"
          "  Objs = 7\n  MaxSteps = %d\n  TwoSlots = %s\n  NStripes = %d\n  Stripe = %d\n  SimLen = %d\nVIEW StateView\nCHECK_DEADLOCK FALSE\n"
-         % (ops, "TRUE" if lean else "FALSE", maxsteps, "TRUE" if two else "FALSE", nstripes, stripe, simlen))
+         % (ops, "TRUE" if lean else "FALSE", "TRUE" if tiny else "FALSE", maxsteps, "TRUE" if two else "FALSE", nstripes, stripe, simlen))
     if bfs:
         s += "INVARIANTS NeverEmpty CopyWithinOriginal\nACTION_CONSTRAINT EmitEdge\n"
     else:
@@ -140,7 +151,13 @@ def dist_objs(info, shape):
 def render(hist, info, choices):
     a = anchors(info)
     lines = []
-    for i, (op, s, x, y, z) in enumerate(hist):
+    prev = None
+    for j, (op, s, x, y, z) in enumerate(hist):
+        # the same call on the other copy right after (MC_TopoOps!Mirror) is given the same labels, so that the argument text is the same
+        twin = prev is not None and prev[0] == op and prev[1] != s and (prev[2:] == (x, y, z) or (op == "restrict" and prev[2:4] == (x, y)))
+        i = lab if twin else j
+        lab = i
+        prev = (op, s, x, y, z)
         if op == "restrict":
             lines.append("restrict %d %d %s %s" % (s, x, "n" if x & 8 else "c", c08.ranges_text(choices[y - 1])))
         elif op == "insert_misc":
@@ -172,6 +189,8 @@ def render(hist, info, choices):
             lines.append("dist_add %d %d %d %d %s %s" % (s, x, y, n, " ".join(map(str, objs)), " ".join(map(str, vals))))
         elif op == "dist_remove":
             lines.append("dist_remove %d" % s)
+        elif op == "dist_remove_one":
+            lines.append("dist_remove_one %d %d" % (s, x))
         elif op == "memattr":
             lines.append("memattr %d %d %d %d" % (s, x, a[y - 1], 100 + i))
         elif op == "cpukind":
@@ -243,6 +262,26 @@ def prio_struct(sig):
     return 2
 
 
+def dup_corpus(ctx, thorough):
+    """C12 over the sources themselves: every family under every load configuration, every bundled XML file (and, thorough, every Linux
+    snapshot and CPUID dump) is loaded, duplicated, one copy is restricted, and both are destroyed in either order; the stores are observed"""
+    srcs = [({"env": {}}, [source_line(ctx, n, d)] + FAM_EXTRA.get(n, []), cl) for n, d in FAMS for _c, cl in LOADCFG]
+    ext = corpus.xml_sources() + (corpus.extract_snapshots(ctx.path("corpus")) if thorough else [])
+    for k, sc in enumerate(ext):
+        for j in ((0, 1, 2, 4) if thorough else (k % 2, 2 + 2 * (k % 2))):
+            srcs.append((sc, corpus.source_lines(sc), LOADCFG[j][1]))
+    behs = []
+    for k, (sc, sl, cl) in enumerate(srcs):
+        a = k % 2
+        small = not sc.get("path") or not os.path.isfile(sc["path"]) or os.path.getsize(sc["path"]) <= 60000         # the relations of restrict are quadratic in the number of objects
+        lines = (["reset 2", "option xmldigest 1", "option stores 1"] + corpus.env_lines(sc) + ["init 0"] + sl + cl + ["load 0", "dup 0 1"] +
+                 (["restrict %d 0 c 0-1" % a, "restrict %d 0 c 0-1" % (1 - a), "refresh %d" % a] if small and sc.get("kind") in (None, "xml") else []) +
+                 ["destroy %d" % (k // 2 % 2), "destroy %d" % (1 - k // 2 % 2)])
+        behs.append("\n".join(lines) + "\n")
+    ctx.extra["dup_corpus"] = {"sources": len(FAMS) + len(ext), "behaviours": len(behs)}
+    return behs
+
+
 def run_generic(ctx, two_slots, replay=None):
     prop = ctx.prop
     ctx.build_lib()
@@ -253,6 +292,9 @@ def run_generic(ctx, two_slots, replay=None):
         text = open(replay).read()
         if re.search(r"xml 0 \S*hwloc-verif", text):
             prepass(ctx, exe)                        # regenerates the XML-sourced families in this run's scratch directory
+            text = c01.rebase_paths(ctx, text)
+        elif re.search(r"env HWLOC_\w+ \S*hwloc-verif", text):
+            corpus.extract_snapshots(ctx.path("corpus"))
             text = c01.rebase_paths(ctx, text)
         rej = replay_fn(text)
         for r in rej:
@@ -266,28 +308,42 @@ def run_generic(ctx, two_slots, replay=None):
     info = prepass(ctx, exe)
     rflags = [0, 1, 2, 6, 8, 24, 26, 3, 9, 16, 32] if thorough else [0, 1, 6, 8, 24, 9]
     behs = []
-    # quick: nested memory, Group level with permuted NUMA indexes; a seed-chosen one of the memory-side cache / offline / disallowed families
-    fams = FAMS if thorough else [FAMS[2], FAMS[4], FAMS[5 + ctx.seed % 3]]
+    # quick: nested memory, Group level with permuted NUMA indexes, the family whose stores are filled from the start, and a seed-chosen one of the
+    # memory-side cache / offline / disallowed families
+    # quick: the memory-side cache / offline / disallowed families get a third of the sample each ("light"), except the seed-chosen one
+    light = set() if thorough else {f[0] for f in FAMS[5:8]} - {FAMS[5 + ctx.seed % 3][0]}
+    fams = FAMS if thorough else [FAMS[2], FAMS[4], FAMS[8]] + FAMS[5:8]
     if os.environ.get("HWV_C02_FAMILIES"):
         fams = [f for f in FAMS if f[0] in os.environ["HWV_C02_FAMILIES"].split(",")]
-    for name, desc in fams:
+
+    def family(name, desc):
+        frng = random.Random("%s/%s" % (ctx.seed, name))
+        scale = (lambda k: max(20, k // 3)) if name in light else (lambda k: k)
         choices = set_choices(info[name])
         gen = [("MC_TopoOps_gen.tla", mc_module(info[name], choices, rflags))]
         hists = []
-        # BFS: every edge up to 2 (3 with dup) steps; a focused configuration (calls that reshape the tree) goes one call deeper
-        confs = [("ops_bfs", 3 if two_slots else 2, "GOpsAll", 15000 if thorough else (1000 if two_slots else 600), prio_two if two_slots else None)]
+        # BFS: every edge up to 2 (3 with dup) steps; a focused configuration (calls that reshape the tree) goes one call deeper, another one
+        # (the calls that fill and empty the stores, with two or three argument combinations each) goes 4 (5 with dup) calls deep
+        confs = [("ops_bfs", 3 if two_slots else 2, "GOpsAll", 15000 if thorough else (800 if two_slots else 500), prio_two if two_slots else None, False)]
         if not two_slots:
-            confs.append(("struct_bfs", 3, "GOpsStruct", 15000 if thorough else 500, prio_struct))
+            confs.append(("struct_bfs", 3, "GOpsStruct", 15000 if thorough else 400, prio_struct, False))
+            confs.append(("deep_bfs", 4, "GOpsDeep", 8000 if thorough else 300, prio_stores, True))
+        elif thorough:
+            confs.append(("deep_bfs", 5, "GOpsDeep", 15000, prio_two, True))
+        else:
+            confs.append(("deep_bfs", 4, "GOpsDeep", 300, prio_two, True))
         ns = 1 if thorough else (6 if two_slots else 2)          # quick: TLC prints the edges of one seed-selected stripe (a hash of the arguments)
-        for tag, maxsteps, ops, keep, prio in confs:
-            out, st = ctx.tlc_mc("MC_TopoOps_gen", mc_cfg(maxsteps, two_slots, ns, ctx.seed % ns, 0, True, ops, lean=two_slots and not thorough), tag=tag + "_" + name,
-                                 workers=8, extra_modules=gen, timeout=2400)
+        for tag, maxsteps, ops, keep, prio, tiny in confs:
+            out, st = ctx.tlc_mc("MC_TopoOps_gen", mc_cfg(maxsteps, two_slots, ns, ctx.seed % ns, 0, True, ops, lean=two_slots and not thorough, tiny=tiny), tag=tag + "_" + name,
+                                 workers=4, extra_modules=gen, timeout=2400)
             if st["error"] or st["rc"] != 0:
                 raise vlib.Infra("MC_TopoOps failed for %s (model-level): %s\n%s" % (name, st["error"], out[-2000:]))
             edges = list(vlib.tlc_printed(out, "EDGE"))
-            picked, nsig, allsig = stratified(edges, keep, rng, prio)       # seeded sample of the state-graph edges, spread over the call signatures
-            ctx.extra["%s_%s" % (tag, name)] = {"edges": len(edges), "signatures": allsig, "signatures_replayed": nsig, "edges_replayed": len(picked)}
-            hists += picked
+            # every single call of the alphabet is always replayed; the longer histories are a seeded sample spread over the call signatures
+            ones = [e["h"] for e in edges if len(e["h"]) == 1] if tag == "ops_bfs" else []
+            picked, nsig, allsig = stratified([e for e in edges if not (tag == "ops_bfs" and len(e["h"]) == 1)], scale(keep), frng, prio)
+            ctx.extra["%s_%s" % (tag, name)] = {"edges": len(edges), "signatures": allsig, "signatures_replayed": nsig, "edges_replayed": len(picked) + len(ones)}
+            hists += ones + picked
         # simulation: long histories
         simlen = 10 if thorough else 8
         out, st = ctx.tlc_mc("MC_TopoOps_gen", mc_cfg(simlen, two_slots, 1, 0, simlen, False), tag="ops_sim_" + name,
@@ -295,22 +351,31 @@ def run_generic(ctx, two_slots, replay=None):
         if st["error"]:
             raise vlib.Infra("MC_TopoOps simulation failed for %s: %s\n%s" % (name, st["error"], out[-2000:]))
         sims = list(vlib.tlc_printed(out, "SIM"))
-        nsim = 600 if thorough else 60
-        hists += sims if len(sims) <= nsim else rng.sample(sims, nsim)
+        nsim = 600 if thorough else scale(60)
+        hists += sims if len(sims) <= nsim else frng.sample(sims, nsim)
         cfgs = LOADCFG if thorough else LOADCFG[:4]
+        fbehs = []
         for k, h in enumerate(hists):
-            cname, clines = cfgs[k % len(cfgs)] if not thorough else cfgs[rng.randrange(len(cfgs))]
+            cname, clines = cfgs[k % len(cfgs)] if not thorough else cfgs[frng.randrange(len(cfgs))]
             # every other behaviour also queries the stores (distances, memory attributes, CPU kinds) after each call: the queries refresh cached
             # state inside the library, so both regimes are run; with them the dup relation compares the stores of both copies too
             lines = ["reset 2", "option xmldigest 1"] + (["option stores 1"] if k % 2 else []) + ["init 0", source_line(ctx, name, desc)] + FAM_EXTRA.get(name, []) + clines + ["load 0"] + render(h, info[name], choices)
-            behs.append("\n".join(lines) + "\n")
+            fbehs.append("\n".join(lines) + "\n")
             # a call that fills a store followed by a restrict or a dup is also run on a topology loaded with the NO_* flags (where only
             # application-added structures exist), with the stores queried after every call
             names = [x[0] for x in h]
             fill = [i for i, n in enumerate(names) if n in ("dist_add", "memattr", "cpukind")]
             if cname != "nostores" and fill and any(n in ("restrict", "dup") for n in names[fill[0] + 1:]) and (thorough or len(h) <= 3):
                 lines = ["reset 2", "option xmldigest 1", "option stores 1", "init 0", source_line(ctx, name, desc)] + FAM_EXTRA.get(name, []) + dict(LOADCFG)["nostores"] + ["load 0"] + render(h, info[name], choices)
-                behs.append("\n".join(lines) + "\n")
+                fbehs.append("\n".join(lines) + "\n")
+        return fbehs
+
+    from concurrent.futures import ThreadPoolExecutor
+    with ThreadPoolExecutor(max_workers=max(1, min(len(fams), vlib.NCPU // 4))) as ex:
+        for fb in ex.map(lambda f: family(*f), fams):
+            behs += fb
+    if two_slots:
+        behs += dup_corpus(ctx, thorough)
     ctx.samples = [behs[0], behs[len(behs) // 2], behs[-1]]
     bf = ctx.path("behaviours.txt")
     open(bf, "w").write("".join(behs))
